@@ -149,6 +149,19 @@ def num(v):
 # ---------------------------------------------------------------- generators
 def gen_abscissae(rng, n):
     r = rng.random()
+    if r < 0.1 and n >= 4:
+        # whole (or half, quarter) numbers picked from a grid: unequal steps
+        # that are nevertheless round, and now and then a table whose first
+        # step, last step and mean step coincide without it being a grid
+        h = rng.choice((1, 1, 0.5, 0.25, 2))
+        x0 = rng.choice((0, -10, 3))
+        if rng.random() < 0.5:
+            ks = sorted(rng.sample(range(0, 3 * n), n))
+        else:
+            ks = [0, 1] + sorted(rng.sample(
+                [v / 4.0 for v in range(5, 4 * (n - 2))
+                 if v % 4], n - 4)) + [n - 2, n - 1]
+        return [x0 + h * k for k in ks]
     if r < 0.4:
         h = rng.choice((1, 1, 0.5, 0.25, 2, 5, 0.125, rng.uniform(0.1, 5)))
         x0 = rng.choice((0, 0, -10, 27.0, rng.uniform(-40, 10)))
